@@ -26,6 +26,20 @@ Routes  : besides t.apply(shape[, batch_size]) every other public route of the a
             manager    t.apply(shape.landmarks): the landmark manager is itself Transformable
           (TexturedTriMesh.tcoords_pixel_scaled applies a transform to the texture coordinates, not to the shape.)
 
+Order   : the map is pointwise.  (i) after every successful call, for every coordinate array a and the three
+          permutations reversed / rotated by one / fixed shuffle: t.apply(a[perm]) == t.apply(a)[perm] row for row
+          (exact without batch_size; with batch_size the batch boundaries move with the permutation and BLAS
+          sees other operand shapes: 1e-12 relative); (ii) a landmark group whose rows are a permutation of the
+          shape's rows is, after the call, the same permutation of the result's rows (exact / 1e-12 likewise).
+          "order" roots: every shape class x dims with its points in each of the three orders and two landmark
+          groups holding the same points in the two other orders.
+          "special" roots (transform letter, kind, first | last): the first / last point of the shape is special
+          for the one transform letter the root is crossed with - origin; w1: homogeneous coordinate exactly 1
+          under a projective bottom row while the other points have w != 1; fixed: a fixed point of the map;
+          pwa-vertex / pwa-corner / pwa-edge: an interior vertex, a domain corner, the midpoint of an interior
+          edge of the source triangulation; tps-control: a control point (kernel singularity r = 0).  The same
+          points sit in two landmark groups in reversed and rotated order.
+
 Second machine (roots ("session", transform letter, dims, argument set)) - refused calls on ONE live transform:
 State   : one live transform t and live argument shapes A, B (valid), W (other dimensionality), and for the
           piecewise-affine letters O (a point outside the domain), LO (a landmark outside); the model state
@@ -52,7 +66,15 @@ from mc.observe import PROBE2, PROBE3, buffers, flip, obs_diff, obs_key, observe
 REF_TOL = 1e-9  # relative to (1 + max |expected|) * conditioning of the map at these points
 PWA_EPS = 1e-9  # barycentric slack below which a point is 'on the border' (either outcome accepted)
 OUTSIDE = np.array([7.1, 6.3])  # well outside every pwa_layout square (corners <= 5.7)
-VARIANTS = ("plain", "touched", "nested", "out", "lm-out")
+VARIANTS = ("plain", "touched", "nested", "out", "lm-out", "order", "special")
+ORDER_TOL = 1e-12  # permutation equivariance under batch_size (relative to (1 + max |y|) * conditioning)
+
+
+def perms(n):
+    """the three fixed re-orderings of n rows: reversed, rotated by one, a fixed shuffle."""
+    idx = np.arange(n)
+    return collections.OrderedDict([("rev", idx[::-1].copy()), ("rot1", np.roll(idx, -1)), ("shuffle", (2 + 3 * idx) % n if n % 3 else (1 + 2 * idx) % n if n % 2 else idx[::-1].copy())])
+
 
 
 # =================================================================================================
@@ -63,7 +85,11 @@ class RefOutside(Exception):
 
 
 class RefBorder(Exception):
-    pass
+    """a point is on an edge / vertex of the triangulation: refusing is acceptable, a value must be this one."""
+
+    def __init__(self, y):
+        Exception.__init__(self)
+        self.y = y
 
 
 def ref_map(t, x):
@@ -137,7 +163,7 @@ def ref_map(t, x):
         if worst < -PWA_EPS:
             raise RefOutside()
         if worst < PWA_EPS:
-            raise RefBorder()
+            raise RefBorder(y)
         return y, 1.0
     raise HarnessError("no reference map for %s" % type(t).__name__)
 
@@ -161,6 +187,21 @@ def place(obj, f):
 def make_shape(root, seed):
     cls, d, k, variant = root[0], int(root[1]), int(root[2]), root[3]
     obj = L.shape((cls, d, k), seed)
+    if variant in ("order", "special"):
+        from menpo.shape import PointCloud, PointUndirectedGraph
+
+        pts = into_domain(obj.points) if d == 2 else obj.points.copy()
+        pm = perms(pts.shape[0])
+        if variant == "special":
+            kind, pos, tname = root[4], root[5], root[6]
+            pts[0 if pos == "first" else -1] = special_point(make_transform((tname, d), seed), kind, d)[0]
+            own, others = np.arange(pts.shape[0]), ["rev", "rot1"]
+        else:
+            own, others = pm[root[4]], [n for n in pm if n != root[4]]
+        obj.points = np.array(pts[own], order="C")
+        obj.landmarks["same." + others[0]] = PointCloud(pts[pm[others[0]]])
+        obj.landmarks["same." + others[1]] = PointUndirectedGraph.init_from_edges(pts[pm[others[1]]], L.EDGES5)
+        return obj
     if variant == "nested":
         g0 = list(obj.landmarks.keys())[0]
         obj.landmarks[g0].landmarks["inner"] = L.bare_shape("PointUndirectedGraph", d, seed, ("nested", cls))
@@ -189,7 +230,69 @@ def make_shape(root, seed):
 
 # boundary letters of the homogeneous family: an AFFINE bottom row (0,...,0,w) with w != 1 (the same map as the matrix
 # divided by w; also negative w), the identity, and a matrix scaled by a tiny / huge factor
-BOUNDARY = ["Homogeneous-affine-w2", "Homogeneous-affine-wneg", "Homogeneous-affine-whalf", "Homogeneous-scaled-1e-3", "Identity-Affine", "Translation-zero", "UniformScale-one"]
+# ... and a projective bottom row of small dyadic numbers: some points have homogeneous coordinate exactly 1, others not
+BOUNDARY = ["Homogeneous-affine-w2", "Homogeneous-affine-wneg", "Homogeneous-affine-whalf", "Homogeneous-scaled-1e-3", "Homogeneous-dyadic-row", "Identity-Affine", "Translation-zero", "UniformScale-one"]
+DYADIC_ROW = [0.0625, -0.03125, 0.015625]
+PROJECTIVE = ("Homogeneous", "Homogeneous-scaled-1e-3", "Homogeneous-dyadic-row")
+TPS_LETTERS = ("ThinPlateSplines", "TPS-R2LogRRBF", "Chain-TPS")
+
+
+def special_kinds(name):
+    """which points are special for a transform letter (static)."""
+    if is_pwa_letter(name):
+        return ["pwa-vertex", "pwa-corner", "pwa-edge"]  # (the origin is outside the domain: a refusal, explored elsewhere)
+    if name in TPS_LETTERS:
+        return ["origin", "tps-control"]
+    if name.startswith("WithDims") or name == "TransformChain":
+        return ["origin"]
+    kinds = ["origin"]
+    if "Translation" not in name:
+        kinds.append("fixed")
+    if name in PROJECTIVE:
+        kinds.append("w1")
+    return kinds
+
+
+def model_w(h, p):
+    d = h.shape[1] - 1
+    return sum(h[-1, c] * p[c] for c in range(d)) + h[-1, d]
+
+
+def special_point(t, kind, d):
+    """(point, outcome tag) from the public parameters of the transform."""
+    if kind == "origin":
+        return np.zeros(d), "origin"
+    if kind == "w1":
+        h = np.array(t.h_matrix, dtype=float)
+        p = None
+        for rest in ([1.0, 2.0], [2.0, 1.0], [0.5, 1.5], [3.0, 1.0], [1.5, 2.5]):
+            p = np.array([0.0] + rest[: d - 1])
+            p[0] = (1.0 - h[-1, d] - sum(h[-1, c] * p[c] for c in range(1, d))) / h[-1, 0]
+            if model_w(h, p) == 1.0:
+                return p, "exact"
+        return p, "inexact"
+    if kind == "fixed":
+        h = np.array(t.h_matrix, dtype=float)
+        vals, vecs = np.linalg.eig(h)
+        for i in np.argsort(-np.abs(vecs[-1, :]) / np.linalg.norm(vecs, axis=0)):
+            v = vecs[:, i]
+            if abs(vals[i].imag) < 1e-12 and abs(v[-1]) > 1e-6 * np.linalg.norm(v):
+                p = (v[:-1] / v[-1]).real
+                y, _ = ref_map(t, p[None, :])
+                if np.abs(y[0] - p).max() <= 1e-9 * (1.0 + np.abs(p).max()):
+                    return p, "found"
+        return np.zeros(d), "none"  # (e.g. a 3-D screw motion has no finite fixed point) -> the origin stands in
+    src = np.array((t.transforms[0] if hasattr(t, "transforms") else t).source.points, dtype=float)
+    if kind == "tps-control":
+        return src[2].copy(), "control"
+    if kind == "pwa-vertex":
+        return src[4].copy(), "interior-vertex"
+    if kind == "pwa-corner":
+        return src[0].copy(), "corner"
+    if kind == "pwa-edge":
+        return 0.5 * (src[0] + src[4]), "interior-edge"
+    raise HarnessError("unknown special kind %r" % (kind,))
+
 EXTRA_2D = [("WithDims-slice", 2), ("Chain-TPS", 2)] + [(b, 2) for b in BOUNDARY]
 EXTRA_3D = [("WithDims-slice", 3), ("WithDims-int", 3)] + [(b, 3) for b in BOUNDARY]
 
@@ -219,6 +322,11 @@ def make_transform(spec, seed):
         if name == "Homogeneous-scaled-1e-3":
             full = np.array(L.transform(("Homogeneous", d, 7), seed).h_matrix, dtype=float)
             return mt.Homogeneous(full * 1e-3)
+        if name == "Homogeneous-dyadic-row":
+            full = np.array(L.transform(("Homogeneous", d, 8), seed).h_matrix, dtype=float)
+            full[-1, :d] = DYADIC_ROW[:d]
+            full[-1, d] = 1.0
+            return mt.Homogeneous(full)
         if name == "Identity-Affine":
             return mt.Affine(np.eye(d + 1))
         if name == "Translation-zero":
@@ -319,7 +427,21 @@ class C02(Check):
             for d in (2, 3):
                 out.append((cls, d, 1, "int"))
                 out.append((cls, d, 1, "f32"))
-        return out + self.session_roots()
+        return out + self.order_roots() + self.special_roots() + self.session_roots()
+
+    def order_roots(self):
+        return [(cls, d, 0, "order", pn) for cls in L.SHAPE_CLASSES for d in (2, 3) for pn in perms(5)]
+
+    def special_roots(self):
+        classes = L.SHAPE_CLASSES if self.tier == "thorough" else ["PointCloud", "TriMesh"]
+        out = []
+        for d in (2, 3):
+            for spec in transform_letters(d):
+                for i, kind in enumerate(special_kinds(spec[0])):
+                    for j, pos in enumerate(("first", "last")):
+                        for cls in classes:
+                            out.append((cls, d, 0, "special", kind, pos, spec[0]))
+        return out
 
     def session_roots(self):
         out = []
@@ -332,7 +454,11 @@ class C02(Check):
     def build(self, root):
         if root[0] == "session":
             return self.build_session(root)
-        return {"machine": "cross", "shape": make_shape(root, self.seed), "variant": root[3]}
+        st = {"machine": "cross", "shape": make_shape(root, self.seed), "variant": root[3], "only": None}
+        if root[3] == "special":
+            st["only"] = (root[6], int(root[1]))
+            st["special"] = (root[4], root[5])
+        return st
 
     def build_session(self, root):
         name, d, (cls_a, cls_b) = root[1], int(root[2]), ARGSETS[root[3]]
@@ -371,13 +497,18 @@ class C02(Check):
         if level >= (1 if self.tier == "quick" else 2):
             return []
         d = st["shape"].n_dims
-        out = [spec + (b,) for b in (0, 2) for spec in transform_letters(d)]
+        if st["only"] is not None:
+            # a shape whose first / last point is special for one transform letter meets that letter only
+            letters = [st["only"]] if level == 0 else []
+        else:
+            letters = transform_letters(d)
+        out = [spec + (b,) for b in (0, 2) for spec in letters]
         # the other public routes (all of them from the enumerated inputs; on results only the shape-side one)
-        out += [spec + ("with_dims",) for spec in transform_letters(d) if spec[0].startswith("WithDims")]
+        out += [spec + ("with_dims",) for spec in letters if spec[0].startswith("WithDims")]
         if level == 0:
-            out += [spec + ("inplace",) for spec in transform_letters(d)]
+            out += [spec + ("inplace",) for spec in letters]
             if st["shape"].has_landmarks:
-                out += [spec + ("manager",) for spec in transform_letters(d)]
+                out += [spec + ("manager",) for spec in letters]
         return out
 
     # ------------------------------------------------------------------ session step
@@ -508,7 +639,8 @@ class C02(Check):
                 ref[p] = ref_map(twin, a)
             except RefOutside:
                 status = "outside"
-            except RefBorder:
+            except RefBorder as e:
+                ref[p] = (e.y, 1.0)
                 if status == "inside":
                     status = "border"
 
@@ -574,6 +706,26 @@ class C02(Check):
             images[p] = np.array(a2)
         if fails:
             return fails
+
+        # ---- the map is pointwise: re-ordering the rows re-orders the images
+        for p, keep in saved:
+            y = images[p]
+            for pn, pm in perms(keep.shape[0]).items():
+                yp = np.asarray(t.apply(keep[pm].copy(), batch_size=batch))
+                if yp.shape != y.shape:
+                    fails.append(Failure(name, "permutation-equivariance", "%s: %s rows in order %s give shape %s" % (ctx, p, pn, yp.shape)))
+                    continue
+                if batch is None:
+                    ok = np.array_equal(yp, y[pm])
+                else:
+                    cond = ref[p][1] if p in ref else 1.0
+                    ok = bool(np.all(np.abs(yp - y[pm]) <= ORDER_TOL * (1.0 + np.abs(y).max()) * max(1.0, cond)))
+                if not ok:
+                    fails.append(Failure(name, "permutation-equivariance", "%s: apply(%s rows in order %s) differs from the re-ordered apply(%s rows) by %.3g" % (ctx, p, pn, p, np.abs(yp - y[pm]).max())))
+                else:
+                    self.note("order:array-%s" % pn)
+        if fails:
+            return fails
         intact("after apply(bare arrays)")
 
         # ---- moved as one, everything else carried over: exact comparison of complete observations
@@ -586,6 +738,31 @@ class C02(Check):
         n_groups = len(point_arrays(shape)) - 1
         self.note("groups:%d" % n_groups)
         self.note("dims:%d->%d" % (shape.n_dims, r.n_dims))
+        if route != "manager":
+            # groups holding the shape's points in another order still do so afterwards
+            got = dict(point_arrays(r))
+            rows = {row.tobytes(): i for i, row in enumerate(np.ascontiguousarray(saved[0][1]))}
+            for p, keep in saved[1:]:
+                if keep.shape == saved[0][1].shape and len(rows) == keep.shape[0] and all(row.tobytes() in rows for row in np.ascontiguousarray(keep)):
+                    pm = np.array([rows[row.tobytes()] for row in np.ascontiguousarray(keep)])
+                    want = got["shape"][pm]
+                    if batch is None:
+                        same = p in got and got[p].shape == want.shape and np.array_equal(got[p], want)
+                    else:  # batches are cut at other rows: ulp-level differences (see ORDER_TOL)
+                        same = p in got and got[p].shape == want.shape and bool(np.all(np.abs(got[p] - want) <= ORDER_TOL * (1.0 + np.abs(want).max()) * max(1.0, ref[p][1] if p in ref else 1.0)))
+                    if not same:
+                        fails.append(Failure(name, "points-and-permuted-landmarks-disagree", "%s: %s held the shape's points in order %s; afterwards it is not the result's points in that order" % (ctx, p, pm.tolist())))
+                    else:
+                        self.note("order:group-is-permutation-of-points")
+        if st.get("special"):
+            kind, pos = st["special"]
+            tag = special_point(twin, kind, shape.n_dims)[1]
+            self.note("special:%s:%s:%s" % (kind, pos, tag))
+            if isinstance(getattr(twin, "h_matrix", None), np.ndarray) and name in PROJECTIVE:
+                w = [model_w(np.array(twin.h_matrix, dtype=float), q) for q in saved[0][1]]
+                i = 0 if pos == "first" else -1
+                if w[i] == 1.0 and all(v != 1.0 for k, v in enumerate(w) if k != i % len(w)):
+                    self.note("special:%s point has w == 1 exactly, others not" % pos)
         if route != "apply":
             # route agreement: exactly what the general call gives on an identically built transform
             try:
@@ -656,6 +833,13 @@ class C02(Check):
         for n in ("route:inplace:with-landmarks", "route:inplace:no-landmarks", "route:manager:with-landmarks", "route:with_dims:with-landmarks", "route:with_dims:no-landmarks", "route:with_dims:landmarks-change-dims"):
             if not notes.get(n):
                 out.append("outcome %s never produced" % n)
+        for n in ["order:array-rev", "order:array-rot1", "order:array-shuffle", "order:group-is-permutation-of-points", "special:first point has w == 1 exactly, others not", "special:last point has w == 1 exactly, others not"]:
+            if not notes.get(n):
+                out.append("outcome %s never produced" % n)
+        for kind, tag in (("origin", "origin"), ("w1", "exact"), ("fixed", "found"), ("tps-control", "control"), ("pwa-vertex", "interior-vertex"), ("pwa-corner", "corner"), ("pwa-edge", "interior-edge")):
+            for pos in ("first", "last"):
+                if not notes.get("special:%s:%s:%s" % (kind, pos, tag)):
+                    out.append("no successful call on a shape whose %s point is special (%s)" % (pos, kind))
         for kind in REFUSAL_KINDS:
             if not any(k.startswith("refusal:%s:" % kind) for k in notes):
                 out.append("no call of refusal kind %s was ever refused" % kind)
@@ -684,6 +868,10 @@ class C02(Check):
             "transform_letters_3d": len(transform_letters(3)),
             "batch_sizes": ["none", 2],
             "routes": ["apply", "apply+batch_size", "inplace", "with_dims", "manager"],
+            "order_roots": len(self.order_roots()),
+            "special_roots": len(self.special_roots()),
+            "permutations": list(perms(5).keys()),
+            "order_tolerance_batched": ORDER_TOL,
             "session_roots": len(self.session_roots()),
             "refusal_kinds": list(REFUSAL_KINDS),
             "session_argument_sets": len(ARGSETS),
@@ -699,6 +887,8 @@ class C02(Check):
             "1-D results (WithDims with a single number) are not transformed again",
             "2-D shape letters are rescaled into the piecewise-affine source domain; out-of-domain behaviour is explored by the out / lm-out variants and at depth 2",
             "routes: private hooks (_apply, _apply_inplace, _transform, _transform_inplace) are reached through the public ones only; the inplace and manager routes are taken from the enumerated inputs (level 0) only; TexturedTriMesh.tcoords_pixel_scaled (a transform applied to texture coordinates) is not a shape transformation",
+            "special-point roots meet the one transform letter they are special for (all routes, both batch sizes) and are not transformed again; quick uses 2 shape classes for them, thorough all 8",
+            "a point on a vertex / edge of the piecewise-affine source triangulation (model slack < 1e-9) may be refused or mapped; if mapped the value must be the model's",
             "sessions: sequences of at most 2 calls on one transform object (a refused call counts with its immediate retry); refusal kinds out-of-domain point / landmark, wrong dimensionality, batch_size=0, apply_inplace of a bare array; WithDims letters have no wrong-dimensionality refusal",
             "the transform's 'before' observation is taken on an identically constructed twin so that the call under test runs on a pristine transform",
         ]
